@@ -54,6 +54,23 @@ HDist(a, b, mod) == IF mod > 0 THEN MinOf((a - b) % mod, (b - a) % mod) ELSE Abs
 WithinLayers(p, L, hl, vl, mod) ==
   \E q \in L : HDist(p[1], q[1], mod) <= hl /\ HDist(p[2], q[2], mod) <= hl /\ Abs(p[3] - q[3]) <= vl
 
+\* The layer fit (FitClearanceAroundExtendedSpatialID): the number of voxels to step away, east-west
+\* (first result) and north-south (second result), until the gap between the voxel and its shifted
+\* copy is at least the clearance.  gaps[n] is the harness-measured gap (WGS84 chord, integer units)
+\* to the copy n steps away, gaps[1] = 0 (neighbours touch); a fit of L layers says that the copy
+\* L + 1 steps away is clear.  Measured lengths carry 1.2e-4.
+\* Required: the fitted count is large enough.  NOT required: that it is the smallest such count
+\* (FitMinimal): the library measures the gap with an iterative closest-point solver on two nearly
+\* coplanar quadrilaterals, which reports too small a distance now and then (observed: 5% of the
+\* north-south fits and 0.15% of the east-west fits are one, rarely two, layers larger than needed;
+\* never smaller).  A larger count only widens the corridor's search box.
+FitTol(x) == IF x = 0 THEN 0 ELSE x \div 8192 + 2
+FitAccept(L, c, gaps) ==          \* (gaps increase; the table ends beyond 1.5 times the clearance)
+  /\ 0 <= L
+  /\ LET i == MinOf(L + 1, Len(gaps)) IN c <= gaps[i] + FitTol(gaps[i])
+FitMinimal(L, c, gaps) == L = 0 \/ c > gaps[L] - FitTol(gaps[L])
+FitMonotone(L1, L2) == L1[1] <= L2[1] /\ L1[2] <= L2[2]     \* a larger clearance never needs fewer layers
+
 \* acceptance of the two corridor results (measured rm, measurement skipped rs)
 \* for the line L and the largest layer counts fitH / fitV over the line
 CorridorAccept(rm, rs, L, fitH, fitV, zeroRadius, far, mod) ==
